@@ -60,7 +60,22 @@ pub fn check_one(ctx: &Ctx, v: &Val, t: &OwnedTerm, origin: &str) {
     let wit = |extra: serde_json::Value| json!({"origin": origin, "value": v.show(), "detail": extra});
     let denoted = val_of(t);
     if !denoted.same(v) {
-        // harness self-check: term_of/val_of disagree -> not a verdict about the library
+        // the term the library's constructors built does not denote the value asked for. If a constructor is shown
+        // to be at fault without any model of this harness involved (an atom asked for by name carries another
+        // name), that is the library's doing; anything else is a doubt about term_of/val_of, not a verdict
+        let mut atoms = Vec::new();
+        crate::refmodel::dist::collect_atoms(v, &mut atoms);
+        for a in &atoms {
+            let made = erltf::types::Atom::new(a.as_str());
+            if made.as_str() != a.as_str() {
+                ctx.viol(
+                    "C01:atom-constructor-names-another-atom",
+                    "Atom::new(x) is not the atom x, so a term built for x is encoded as (and every x that is decoded becomes) another atom",
+                    json!({"origin": origin, "asked_for": a, "got": made.as_str()}),
+                );
+                return;
+            }
+        }
         ctx.inconclusive(&format!("self-check: val_of(term_of(v)) != v for {}", v.show()));
         return;
     }
@@ -233,6 +248,15 @@ pub fn run(ctx: &Ctx) {
         let _ = rep;
     }
 
+    // the names real nodes send, in terms whose atoms are put together field by field (no constructor involved):
+    // the bytes must name that atom and decoding must give it back
+    for name in crate::genr::val::OTP_VOCABULARY.iter() {
+        let atom = |n: &str| erltf::types::Atom { name: std::sync::Arc::from(n) };
+        let v = Val::Tuple(vec![Val::atom(name), Val::List { elems: vec![Val::atom(name)], tail: Box::new(Val::Nil) }]);
+        let t = OwnedTerm::Tuple(vec![OwnedTerm::Atom(atom(name)), OwnedTerm::List(vec![OwnedTerm::Atom(atom(name))])]);
+        ctx.class("vocabulary-atom/built-field-by-field");
+        check_one(ctx, &v, &t, &format!("vocabulary atom {}", name));
+    }
     // deterministic boundary corpus
     let huge = true;
     let leaves = boundary_leaves(huge);
